@@ -154,8 +154,14 @@ class QCircuit:
 
     def repeat(self, n: int) -> "QCircuit":
         """Return a copy of the QCircuit repeated n times"""
+        if n < 0:
+            raise ValueError("a circuit cannot be repeated a negative number of times")
         o = self.copy()
         n_qc = self.copy()
+        if n == 0:  # zero repetitions: the empty circuit on the same qubits
+            n_qc.gates = []
+            if hasattr(n_qc, "gates_computed"):
+                n_qc.gates_computed = []
         for i in range(n - 1):
             n_qc += o.copy()
         return n_qc
